@@ -201,7 +201,19 @@ func TestVerifC11H(t *testing.T) {
 					ex[exempt] = true
 					nonHMAC = []string{exempt}
 				}
-				for _, place := range []string{"request", "response"} {
+				// response shapes: a wrapped token (auth block + wrap-info naming the wrapped token's
+				// accessor), a wrapped SECRET (wrap-info without wrapped accessor, no auth block), a
+				// plain login (auth block only), a plain read. All four for the first 64 trees of
+				// the enumeration (simplest first), the first one for the rest.
+				places := []string{"request", "response"}
+				if ti < 64 {
+					places = append(places, "response:wrapped-secret", "response:auth-only", "response:plain")
+				}
+				for _, place := range places {
+					shape := strings.TrimPrefix(strings.TrimPrefix(place, "response"), ":")
+					if strings.HasPrefix(place, "response") {
+						place = "response"
+					}
 					count++
 					b := &builder{}
 					top := map[string]interface{}{"k0": b.build(tr, "k0", ex), "k1": "2026-01-02T03:04:05Z"}
@@ -224,11 +236,20 @@ func TestVerifC11H(t *testing.T) {
 							WrapInfo: &wrapping.ResponseWrapInfo{Token: wrapTok, Accessor: wrapAcc, WrappedAccessor: "CANARY-WRAPPEDACC-zq",
 								TTL: time.Minute, CreationTime: time.Unix(1700000000, 0), CreationPath: "secret/x"},
 						}
+						switch shape {
+						case "wrapped-secret":
+							in.Response.Auth = nil
+							in.Response.WrapInfo.WrappedAccessor = ""
+						case "auth-only":
+							in.Response.WrapInfo = nil
+						case "plain":
+							in.Response.Auth, in.Response.WrapInfo = nil, nil
+						}
 						in.NonHMACRespDataKeys = nonHMAC
 						ferr = f.FormatResponse(ctx, &buf, cfg, in)
 					}
 					res.Add("evaluations", 1)
-					art := map[string]interface{}{"tree": tr.String(), "place": place, "hmac_accessor": hmacAcc, "exempt_key": exempt}
+					art := map[string]interface{}{"tree": tr.String(), "place": place, "response_shape": shape, "hmac_accessor": hmacAcc, "exempt_key": exempt}
 					if ferr != nil {
 						// refusing to format is fail-closed, never a leak
 						res.Add("format_errors", 1)
@@ -263,7 +284,7 @@ func TestVerifC11H(t *testing.T) {
 							res.Violate("c11:format:data-string-in-clear", fmt.Sprintf("%v: secret leaf %s appears in the %s entry: %s", art, c.text, place, clip(out)), art)
 						}
 					}
-					res.Distinct("nontrivial", fmt.Sprintf("%s|%s|acc=%v|ex=%s", tr.String(), place, hmacAcc, exempt))
+					res.Distinct("nontrivial", fmt.Sprintf("%s|%s|%s|acc=%v|ex=%s", tr.String(), place, shape, hmacAcc, exempt))
 					if count%20011 == 0 {
 						res.Sample(map[string]interface{}{"case": art, "secret_leaves": nsecret, "exempt_leaves": nexempt, "entry_bytes": len(out)})
 					}
